@@ -151,6 +151,10 @@ def snapshot(W, repo_dir, tmpdir, is_repo=True):
 
 
 # ----------------------------------------------------------------------------- fault injection
+class SelfTermination(BaseException):
+    """raised in place of the tool ending its own process"""
+
+
 class Inject:
     """Patches installed in the harness process around one run of the tool (nothing in /repo is edited)."""
 
@@ -250,6 +254,26 @@ class Inject:
             git.Repo = no_git
         self.old_tempdir = tempfile.tempdir
         tempfile.tempdir = self.tmpdir
+        # a tool that ends its OWN process (os.kill(os.getpid(), …), os._exit, signal.raise_signal) would take this harness with it: record the attempt, let the
+        # tool see an exception instead; the child-process mechanism observes what such an exit really leaves behind
+        self.self_exit = None
+        self.orig_kill, self.orig__exit, self.orig_raise_signal = os.kill, os._exit, signal.raise_signal
+        me = os.getpid()
+
+        def guarded_kill(pid, sig):
+            if pid == me:
+                inj.self_exit = "os.kill(os.getpid(), %s)" % sig
+                raise SelfTermination(inj.self_exit)
+            return inj.orig_kill(pid, sig)
+
+        def guarded_exit(code=0):
+            inj.self_exit = "os._exit(%s)" % code
+            raise SelfTermination(inj.self_exit)
+
+        def guarded_raise(sig):
+            inj.self_exit = "signal.raise_signal(%s)" % sig
+            raise SelfTermination(inj.self_exit)
+        os.kill, os._exit, signal.raise_signal = guarded_kill, guarded_exit, guarded_raise
         self.saved_fd2 = None
         if self.case["mech"] == "real":          # the real bandit children log to the inherited stderr
             sys.stderr.flush()
@@ -274,6 +298,7 @@ class Inject:
         if self.orig_repo is not None:
             git.Repo = self.orig_repo
         tempfile.tempdir = self.old_tempdir
+        os.kill, os._exit, signal.raise_signal = self.orig_kill, self.orig__exit, self.orig_raise_signal
         if self.saved_fd2 is not None:
             os.dup2(self.saved_fd2, 2)
             os.close(self.saved_fd2)
@@ -443,13 +468,14 @@ def run_tool_sigint(W, argv, cwd, tmpdir, fakebin, step):
             "try:\n    baseline.main()\nexcept SystemExit:\n    raise\n"
             "except BaseException as e:\n    sys.stderr.write('ESCAPED:' + type(e).__name__ + '\\n'); sys.exit(99)\n")
     p = subprocess.Popen(["/venv/bin/python", "-c", code] + list(argv), cwd=cwd, env=env, stdout=subprocess.PIPE, stderr=subprocess.PIPE, text=True)
-    ready = os.path.join(fakebin, f"ready{step}")
-    t0 = time.time()
-    while not os.path.exists(ready) and p.poll() is None and time.time() - t0 < 30:
-        time.sleep(0.01)
-    if p.poll() is None:
-        time.sleep(0.05)
-        p.send_signal(signal.SIGINT)
+    if step is not None:
+        ready = os.path.join(fakebin, f"ready{step}")
+        t0 = time.time()
+        while not os.path.exists(ready) and p.poll() is None and time.time() - t0 < 30:
+            time.sleep(0.01)
+        if p.poll() is None:
+            time.sleep(0.05)
+            p.send_signal(signal.SIGINT)
     try:
         out, err = p.communicate(timeout=60)
     except subprocess.TimeoutExpired:
@@ -534,11 +560,14 @@ def run_case(W, case, driver, res):
     before = snapshot(W, root_dir, tmpdir, is_repo)
     argv = argv_of(case)
     fakebin = None
-    if case["mech"] in ("exec", "sigint"):
+    if case["mech"] in ("exec", "sigint", "child"):
         fakebin = make_fakebin(W, sc, sleep_at=case.get("sigint_step"))
     inj = Inject(W, case, tmpdir, fakebin)
-    if case["mech"] == "sigint":
-        r = run_tool_sigint(W, argv, cwd, tmpdir, fakebin, case["sigint_step"])
+    if case["mech"] in ("sigint", "child"):
+        # "child": the tool runs as a real child process whose `bandit` is the fake executable (which may end by a signal); nothing is patched
+        r = run_tool_sigint(W, argv, cwd, tmpdir, fakebin, case.get("sigint_step"))
+        if r["exit"] is not None and r["exit"] < 0:
+            pass
     else:
         with inj:
             r = run_tool_inprocess(argv, cwd, case["pre"]["git_module"])
@@ -568,7 +597,7 @@ def run_case(W, case, driver, res):
         if "error" in model:
             res.break_("driver-error", model["error"])
             model = None
-    comparable = ["tmp_dirs", "report", "cwd_tmp", "precious", "exit"] + (["head", "branch", "work", "dirty"] if is_repo else [])
+    comparable = ["tmp_dirs", "report", "cwd_tmp", "precious"] + (["exit"] if case["mech"] != "child" else []) + (["head", "branch", "work", "dirty"] if is_repo else [])
     agree = None
     if model is not None:
         mfinal = dict(model["final"], exit=model["exit"])
@@ -579,7 +608,7 @@ def run_case(W, case, driver, res):
             res.break_("correspondence", {"case": case, "argv": argv, "mismatch": mis})
             res.count("correspondence-mismatch")
         # where the two runs happened (the model resets to the step's commit before each run)
-        if case["mech"] != "sigint" and is_repo and case["pre"]["has_parent"]:
+        if case["mech"] not in ("sigint", "child") and is_repo and case["pre"]["has_parent"]:
             heads = [h for _, h in inj.bandit_calls]
             want = [W.ids["parent"], W.ids["cur"]][:len(heads)]
             if heads != want:
@@ -622,11 +651,15 @@ def run_case(W, case, driver, res):
         rec["known"] = known
     quiet = sc["co1"] == "ok" and returns(sc["run1"]) and sc["co2"] == "ok" and returns(sc["run2"])
     ran = (not must_refuse(case) and case["pre"]["usage"] == "ok" and case["pre"]["git_module"] and case["pre"]["has_parent"])
-    if ran and quiet and sc["co3"] == "ok" and case["mech"] != "sigint":
+    if ran and quiet and sc["co3"] == "ok" and case["mech"] not in ("sigint", "child"):
         if obs["exit"] != {"code": rc_of(sc["run2"])}:
             viol.append(("exit status is not that of the comparison run", {"exit": obs["exit"], "comparison_run": sc["run2"], "first_run": sc["run1"]}))
         if case["fmt"] is not None and sc["run2"] in (["exit", 0], ["exit", 1]) and not obs["report"]:
             viol.append(("the report it was asked to write is missing", {"report": report_rel}))
+    if getattr(inj, "self_exit", None):
+        viol.append(("the tool tried to end its own process (%s) inside the guarded region: no clean-up code would run" % inj.self_exit, {"call": inj.self_exit}))
+    if case["mech"] == "child" and r["exit"] is not None and r["exit"] < 0:
+        viol.append(("the tool's own process was ended by a signal while the repository was switched to the parent commit", {"signal": -r["exit"]}))
     for what, detail in viol:
         res.violation(what, {"case": case, "argv": argv, "observed": obs, "detail": detail, "model": rec.get("model"),
                              "tool_stdout_tail": r["out"][-600:], "tool_exception": r.get("exc_msg")})
@@ -634,7 +667,7 @@ def run_case(W, case, driver, res):
     rec["verdict"] = "violation" if viol else ("known" if rec.get("known") else "ok")
 
     # ---- bookkeeping
-    nontrivial = must_refuse(case) or sc != OK_SC or case["mech"] in ("real", "exec", "sigint") or not ran or case["repo"]["precious"]
+    nontrivial = must_refuse(case) or sc != OK_SC or case["mech"] in ("real", "exec", "sigint", "child") or not ran or case["repo"]["precious"]
     res.case(key, nontrivial)
     res.count("mech:" + case["mech"])
     res.count("head:" + case["head_mode"])
@@ -674,6 +707,12 @@ def outcome_cases(thorough):
     for hm, fmt in layouts:
         for r1, r2 in seqs:
             out.append(base_case(head_mode=hm, fmt=fmt, sc={"run1": r1, "run2": r2}))
+    # the `bandit` child ended by a signal, observed on a REAL child process of the tool (nothing patched): whatever the tool does about it, the repository
+    # is put back (seeded change C20-m9 re-raised the signal on itself inside the guarded region: the process ended without running the finally block)
+    for hm, fmt in (("branch", None), ("detached", "json")):
+        for r1, r2 in ((["signal", 9], ["exit", 0]), (["signal", 15], ["exit", 1]), (["exit", 0], ["signal", 9]), (["exit", 1], ["signal", 15]), (["signal", 15], ["signal", 9]),
+                       (["signal", 2], ["exit", 0]), (["signal", 1], ["exit", 0])):
+            out.append(base_case(mech="child", head_mode=hm, fmt=fmt, sc={"run1": r1, "run2": r2}))
     co_runs = [(["exit", 0], ["exit", 0]), (["exit", 1], ["exit", 1]), (["missing"], ["exit", 0]), (["exit", 0], ["interrupt"]), (["signal", 9], ["other", "RuntimeError"])]
     if thorough:
         co_runs = seqs
